@@ -7,6 +7,9 @@ for f in sorted(glob.glob(os.path.join(V, "seeded", "*", "meta.json"))):
     m = json.load(open(f))
     desc = m.get("summary") or m.get("what_it_changes", "")
     desc = re.sub(r"\s+", " ", desc)[:230]
+    files = ", ".join(os.path.basename(x) for x in m.get("files_touched", []))
+    if files:
+        desc = "`%s`: %s" % (files, desc)
     det = []
     for c, r in m["checks_run_with_change_applied"].items():
         if r["exit"] == 1:
@@ -20,7 +23,7 @@ nd = sum(1 for r in rows if r[4])
 out = []
 out.append("%d seeded changes are kept under `seeded/<id>/` (patch.diff, the author's demonstration, notes.md with the trigger conditions, meta.json with what was run). Each was written by a fresh sub-agent that saw only the property text and a scratch worktree of /repo; each was re-confirmed by `tools/seeded_pipeline.py` on /repo's current HEAD (demonstration passes without the change and fails with it; the 84 baseline tests + 10 doctests still pass, same 4 known failures) and then the property's quick check was run in /verif against /repo with the change applied (and undone straight afterwards). %d of %d are caught by the quick tier." % (n, nd, n))
 out.append("")
-out.append("| id | what the change is (author's words, abridged) | caught by (violation kinds) |")
+out.append("| id | file: what the change is (title of the author's notes.md; trigger conditions are in seeded/<id>/notes.md and meta.json) | caught by (violation kinds) |")
 out.append("|---|---|---|")
 for i, p, d, det, ok in rows:
     out.append("| %s | %s | %s%s |" % (i, d.replace("|", "/"), "" if ok else "**NOT caught**: ", det.replace("|", "/")))
